@@ -33,13 +33,19 @@ def int_domain(rng, tier):
             zs.add(2**(8 * n - 1) - 1); zs.add(-(2**(8 * n - 1)))
     return sorted(zs)
 
-STR_OPS = ["STRING", "BINSTRING", "SHORT_BINSTRING", "UNICODE", "BINUNICODE", "SHORT_BINUNICODE",
+STR_OPS = ["STRING", "STRING_RAW", "STRING_DQ", "BINSTRING", "SHORT_BINSTRING", "UNICODE", "BINUNICODE", "SHORT_BINUNICODE",
            "BINBYTES", "SHORT_BINBYTES", "BYTEARRAY8"]
 
 def str_form(op, payload):
     """(pickle bytes or None, kind) for a byte payload; text opcodes need valid UTF-8"""
     n = len(payload)
     if op == "STRING": return b"S" + G.py_repr_bytes(payload) + b"\n", "bstr"
+    if op in ("STRING_RAW", "STRING_DQ"):
+        # the same opcode with everything left unescaped that need not be escaped (raw bytes >= 0x80,
+        # control characters), in either quote style - CPython reads these too
+        qc = b"'" if op == "STRING_RAW" else b'"'
+        body = b"".join((b"\\" + bytes([c])) if bytes([c]) in (qc, b"\\") else (b"\\n" if c == 10 else bytes([c])) for c in payload)
+        return b"S" + qc + body + qc + b"\n", "bstr"
     if op == "BINSTRING": return b"T" + struct.pack("<I", n) + payload, "bstr"
     if op == "SHORT_BINSTRING": return (b"U" + bytes([n]) + payload if n < 256 else None), "bstr"
     if op in ("UNICODE", "BINUNICODE", "SHORT_BINUNICODE"):
